@@ -558,14 +558,34 @@ func hostC01(o *out, replay string) {
 	// the same bound with a REAL process behind the stock command runner (its Diagnose / Kill / Wait are on the path):
 	// a process that prints a rejected first line and stays alive
 	for _, l := range []string{"lolinvalid\n", "\n", "1|1|tcp\n", "1|9|tcp|127.0.0.1:1|netrpc\n", "1|3|bogus|x\n"} {
-		impl, pred := runHsRealProcess(l)
+		impl, pred := runHsRealProcess(l, false)
 		o.emit("!C01.real line="+hxs(l), impl, pred)
+	}
+	// … and when the plugin "binary" is a launcher script (not an ELF file: the runner's diagnosis of the command takes other paths)
+	for _, l := range []string{"lolinvalid\n", "1|1|tcp\n"} {
+		impl, pred := runHsRealProcess(l, true)
+		o.emit("!C01.script line="+hxs(l), impl, pred)
 	}
 }
 
 // runHsRealProcess: Start against a real child that prints `line` and then hangs.
-func runHsRealProcess(line string) (impl, pred string) {
+func runHsRealProcess(line string, script bool) (impl, pred string) {
 	cmd := kitCmd(kitServeCfg{Sets: map[string]string{"3": "netrpc"}, PreServe: "printhang:" + hxs(line)})
+	if script {
+		work := os.Getenv("VERIF_WORK")
+		if work == "" {
+			work = os.TempDir()
+		}
+		f, err := os.CreateTemp(work, "launcher-*.sh")
+		if err != nil {
+			return "setup-error", "FAIL:setup"
+		}
+		fmt.Fprintf(f, "#!/bin/sh\nprintf '%%s' '%s'\nexec sleep 30\n", strings.ReplaceAll(line, "'", ""))
+		f.Close()
+		os.Chmod(f.Name(), 0o755)
+		defer os.Remove(f.Name())
+		cmd = exec.Command(f.Name())
+	}
 	client := plugin.NewClient(&plugin.ClientConfig{
 		HandshakeConfig:  kitHandshake(),
 		VersionedPlugins: kitHostSets(map[int]string{3: "netrpc"}, nil, nil),
